@@ -1188,6 +1188,15 @@ def check_c02(pid, tier, build, props):
         problems.append("correspondence insert_block_and_control_blocks = Model/CbHier.v broken: %d calls differ, "
                         "first: %r%s" % (cbt["mismatch_count"], cbt["mismatches"][:1],
                                          (" harness: %r" % cbt["harness_errors"][:1]) if cbt["harness_errors"] else ""))
+    # the totality theorems of the two hierarchy-level edits (Props/C02.v: C02_region_extraction_total,
+    # C02_header_unification_any_level_total) speak about calls that meet their boolean precondition;
+    # evaluated (extracted Coq) on every recorded call: the pipeline must establish it
+    for what, tt in (("extract_region", xt_), ("insert_block_and_control_blocks", cbt)):
+        if tt.get("totality_precondition_unmet_examples"):
+            problems.append("the precondition of the totality theorem for %s (Model/Total2.v) is not established on "
+                            "%d of %d calls the pipeline makes, first: %r"
+                            % (what, tt["calls_compared"] - tt["totality_precondition_met"], tt["calls_compared"],
+                               tt["totality_precondition_unmet_examples"][:1]))
     b5 = None
     if tier == "thorough":
         from . import bounded5
@@ -1234,7 +1243,12 @@ def check_c02(pid, tier, build, props):
                        "implementation on the enumerated space (exhaustive up to the stated bound). Proved in Coq "
                        "(Props/C02.v): totality of the value-table rewrite with equal arity (the site repaired by "
                        "cecde5d), find_head succeeds whenever a unique un-targeted block exists, the breadth-first "
-                       "iterators terminate on every graph; and, over an executable model of the WHOLE pipeline "
+                       "iterators terminate on every graph; every EDIT of the pipeline returns without raising, for "
+                       "all graphs and hierarchies, under the preconditions its callers establish "
+                       "(C02_header_unification_total, C02_loop_rotation_total, C02_update_exiting_total, "
+                       "C02_region_extraction_total, C02_header_unification_any_level_total over the line-by-line "
+                       "models; the preconditions of the last two are booleans evaluated on every call the pipeline "
+                       "makes: totality_precondition_met); and, over an executable model of the WHOLE pipeline "
                        "(Model/Pipe.v: join_returns, loop_restructure_helper, extract_region, restructure_branch "
                        "and everything they call, dictionary order included), C02_pipeline_model_le4: on every "
                        "closed graph with at most 4 blocks all three stages complete (checked by the kernel's VM "
@@ -1448,6 +1462,23 @@ def _vchk_col(o, tag):
     return None
 
 
+def _semantic_witness(src):
+    """A program on which the implementation's graph differs from the front-end model: look for a decision
+    list under which interpreting the implementation's graph differs from running the function (only used
+    when the correspondence is already broken; programs of a known finding class are left alone)."""
+    from . import srcpipe, srcrun
+    try:
+        if srcrun.finding_class(src):
+            return None
+        o = srcpipe.analyse(src)
+        s = o.get("cfg_semantics")
+        if isinstance(s, dict) and "harness" not in s:
+            return dict(s, reason="interpreting the graph differs from running the function")
+    except Exception:
+        pass
+    return None
+
+
 def check_c08(pid, tier, build, props):
     from . import srcrun
 
@@ -1507,8 +1538,8 @@ def check_c08(pid, tier, build, props):
             fe["skipped"][meta["skipped"]] = fe["skipped"].get(meta["skipped"], 0) + 1
         elif (meta and "model_mismatch" in meta) or r != [1, 1, 1, 1, 1]:
             fe["mismatch"] += 1
-            if fe["mismatch"] <= 2:
-                violations.append({"source": item, "witness": None,
+            if fe["mismatch"] <= 6:
+                violations.append({"source": item, "witness": _semantic_witness(item),
                                    "note": "graph built by the implementation differs from the model Src.build "
                                            "(answers %r %s)" % (r, (meta or {}).get("model_mismatch", ""))})
         else:
@@ -1530,8 +1561,8 @@ def check_c08(pid, tier, build, props):
             fx["skipped"][meta["skipped"]] = fx["skipped"].get(meta["skipped"], 0) + 1
         elif (meta and "model_mismatch" in meta) or r is None or len(r) != 5 or r[:3] != [1, 1, 1] or r[4] != 1:
             fx["mismatch"] += 1
-            if fx["mismatch"] <= 2:
-                violations.append({"source": item, "witness": None,
+            if fx["mismatch"] <= 6:
+                violations.append({"source": item, "witness": _semantic_witness(item),
                                    "note": "graph built by the implementation differs from the model SrcE.build "
                                            "(answers %r %s)" % (r, (meta or {}).get("model_mismatch", ""))})
         else:
